@@ -17,11 +17,11 @@ package project
 //@ func project.WriteConfigFile$1
 //@   ensures counted: n_emit[format] == old(n_emit)[format] + 1
 //@   ensures others: forall g: string :: g != format ==> n_emit[g] == old(n_emit)[g]
-//@   modifies n_emit, deref(has)
+//@   modifies n_emit, has
 //@ func project.WriteConfigFile$2
 //@   ensures counted: n_emit[format] == old(n_emit)[format] + 1
 //@   ensures others: forall g: string :: g != format ==> n_emit[g] == old(n_emit)[g]
-//@   modifies n_emit, deref(has)
+//@   modifies n_emit, has
 
 // Every populated field is written exactly once, every requirement gets one line, and a requirement
 // name is written bare only if it is a valid bare key (in particular: not empty).
